@@ -123,6 +123,18 @@ def run_case(cs, ctx):
         if opened:
             ctx.finding(en.F('C16', 'refuses_before_reading', 'invalid option set (%s): the instance file was opened before the refusal' % kind,
                              kind=kind), case)
+        # the identical argument vector a second time in the same process must be refused again
+        if code == 2 and exc is None:
+            try:
+                with contextlib.redirect_stderr(io.StringIO()):
+                    Solver(list(argv))
+                ctx.finding(en.F('C16', 'refuses_invalid', 'invalid option set (%s) was refused the first time but accepted when presented '
+                                 'again: %s' % (kind, flags), kind=kind), case)
+            except SystemExit:
+                ctx.cnt('refusals_repeated')
+            except Exception as e:
+                ctx.finding(en.F('C16', 'refuses_invalid', 'invalid option set (%s) presented a second time raised %s: %s' % (
+                    kind, type(e).__name__, e), kind=kind), case)
         if nsolves:
             ctx.finding(en.F('C16', 'refuses_before_solving', 'invalid option set (%s): %d solves before the refusal' % (kind, nsolves),
                              kind=kind), case)
